@@ -115,3 +115,44 @@ package rlp
 //@   requires w != nil
 //@   ensures result == len(w.str) + w.lhsize
 //@   modifies nothing
+
+// ---------------------------------------------------------------------------------------------
+// Big integers in the streaming decoder (C08): an accepted integer payload has no leading zero byte - in
+// particular the single byte 0x00 is not an encoding of zero (zero is the empty string, 0x80). The stream
+// itself and the reflective plumbing are trusted stubs: ghost slen/sfirst record length and first byte of the
+// payload the last successful Stream.Bytes handed out; reflBigPtr(v): the reflect value holds a *big.Int
+// (guaranteed by the decoder table that selects decodeBigInt). reflect.Value.Set writes outside the model.
+//@ ghost slen (Array Int {int})
+//@ ghost sfirst (Array Int {uint8})
+//@ spec abstract fn reflBigPtr(v reflect.Value) bool
+
+//@ func Stream.Bytes
+//@   option trusted
+//@   requires s != nil
+//@   ensures result1 == nil ==> @select(ghost(slen), ref(s)) == len(result0) && (len(result0) > 0 ==> @select(ghost(sfirst), ref(s)) == result0[0])
+//@   modifies *s, ghost(slen), ghost(sfirst)
+
+//@ func wrapStreamError
+//@   option trusted
+//@   ensures err != nil ==> result != nil
+//@   modifies nothing
+
+//@ func ext_reflectInterface
+//@   option trusted extern=(reflect.Value).Interface
+//@   ensures reflBigPtr(arg0) ==> istype(result, *big.Int)
+//@   modifies nothing
+
+//@ func ext_reflectSet
+//@   option trusted extern=(reflect.Value).Set
+//@   modifies nothing
+
+//@ func ext_reflectValueOf
+//@   option trusted extern=reflect.ValueOf
+//@   modifies nothing
+
+//@ func decodeBigInt
+//@   property C08
+//@   requires s != nil && ErrCanonInt != nil
+//@   requires [table!init] reflBigPtr(val)
+//@   ensures [canon] result == nil ==> @select(ghost(slen), ref(s)) == 0 || @select(ghost(sfirst), ref(s)) != 0
+//@   modifies *s, ghost(slen), ghost(sfirst), heap("math/big.Int")
